@@ -69,14 +69,14 @@ func AllWorlds() []World {
 
 // Stats are per-worker measured counters.
 type Stats struct {
-	Runs     int64            `json:"runs"`
-	Execs    int64            `json:"execs"`
-	Counters map[string]int64 `json:"counters"`
-	Distinct map[uint64]bool  `json:"-"`
-	DistinctList []uint64     `json:"distinct"`
-	Samples  []interface{}    `json:"samples"`
-	SimNanos int64            `json:"sim_nanos"`
-	Unknown  int64            `json:"unknown"`
+	Runs         int64            `json:"runs"`
+	Execs        int64            `json:"execs"`
+	Counters     map[string]int64 `json:"counters"`
+	Distinct     map[uint64]bool  `json:"-"`
+	DistinctList []uint64         `json:"distinct"`
+	Samples      []interface{}    `json:"samples"`
+	SimNanos     int64            `json:"sim_nanos"`
+	Unknown      int64            `json:"unknown"`
 }
 
 // NewStats allocates.
